@@ -120,6 +120,12 @@ def run(ctx):
                       "; ".join(sorted(set(bad_clock))[:3]))
             ctx.check(nflushpaths >= 1, "R2.1", "%s:flush-arm-explored" % fname, fn.loc(), "no flushing path explored")
 
+    ctx.rule("R2.7", "every thread's streams and metadata pass only through storage private to that thread (thread-local or "
+             "automatic): no function reachable from the tracing API writes a shared static object other than the "
+             "process state (same analysis as C11 R11.1)")
+    from rules.rtcommon import private_storage_rule
+    private_storage_rule(ctx, "R2.7", "streams and metadata")
+
     # ---- R2.4 -----------------------------------------------------------------------
     # writer side: literal keys set in libovni (formats normalised at the first '%')
     writer = {}
@@ -272,6 +278,31 @@ def run(ctx):
         acc = [o for o in outsu if o.kind == "ret" and o.ret == INT(0)]
         ctx.check(bool(acc), "R2.6", "update_clocks:last=%d:next=%d" % (last, sclock), uc.loc(),
                   "a legal step between streams (clock %d after %d) is refused" % (sclock, last))
+
+    # threads of a program start at different times: streams whose first events are seconds or minutes apart
+    # are accepted; the gate (one hour, the unit the function's own diagnostic uses) only refuses hours
+    ccg = prog.fn("check_clock_gate", "src/emu/player.c")
+    for (label, delta, want_ok) in (("same", 0, True), ("1s", 10 ** 9, True), ("1min", 60 * 10 ** 9, True),
+                                    ("59min", 59 * 60 * 10 ** 9, True), ("3h", 3 * 3600 * 10 ** 9, False)):
+        for sign in (1, -1):
+            def s_clk(ex_, st, a, f, e, delta=delta, sign=sign):
+                return [(INT(10 ** 15 + (sign * delta if a[0] == PTR("S1") else 0)), {})]
+            exg = absint.Explorer(prog, effects=eff, loop_bound=5, summaries={
+                "stream_evclock": s_clk, "stream_ev": lambda ex_, st, a, f, e: [(PTR("OEV"), {})],
+                "llabs": lambda ex_, st, a, f, e: [(INT(abs(a[0][1])), {})] if a[0][0] == "int" else None})
+            store = {("TR", F("trace", "streams")): PTR("S0"), ("S0", F("stream", "next")): PTR("S1"),
+                     ("S1", F("stream", "next")): NULL, ("S0", F("stream", "active")): INT(1),
+                     ("S1", F("stream", "active")): INT(1)}
+            outsg = [o for o in exg.run(ccg, [PTR("TR")], store) if o.kind == "ret"]
+            acc = [o for o in outsg if o.ret == INT(0)]
+            inst = "check_clock_gate:second-stream-%s-%s" % (label, "later" if sign > 0 else "earlier")
+            if want_ok:
+                ctx.check(bool(acc) and len(acc) == len(outsg), "R2.6", inst, ccg.loc(),
+                          "a trace whose second stream starts %s %s than the first is refused as a 'large clock gate'" %
+                          (label, "later" if sign > 0 else "earlier"))
+            else:
+                ctx.check(bool(outsg) and not acc, "R2.6", inst, ccg.loc(),
+                          "streams starting %s apart are accepted without a clock offset table" % label)
 
     # nobody in the emulator decodes the size nibble on its own
     own = []
